@@ -274,6 +274,15 @@ def gen_value(rng, depth=0):
     return rng.choice(LEAVES)
 
 
+def gen_array(rng):
+    """a small non-empty numpy array value"""
+    import numpy as np
+
+    dt = rng.choice(["<i4", "<f8", "<i8"])
+    n = rng.choice([1, 2, 3])
+    return canon((np.arange(n) * rng.choice([1, 3, -2])).astype(np.dtype(dt)))
+
+
 def gen_container(rng, want):
     """a dict or list value (the kinds that can be mutated in place)"""
     for _ in range(50):
@@ -476,12 +485,17 @@ def gen_case(rng):
         elif o == "update":
             op["kvs"] = [[rng.choice(keys), gen_value(rng, 1)] for _ in range(rng.choice([0, 1, 2, 3]))]
         elif o == "mutate":
-            cands = [q for q in present if kind(spec.vis[q]) in ("dict", "list")]
+            cands = [q for q in present if kind(spec.vis[q]) in ("dict", "list", "nd")]
             if not cands:
-                op = {"op": "set", "k": k, "v": gen_container(rng, rng.choice(["dict", "list"]))}
+                op = {"op": "set", "k": k, "v": gen_container(rng, rng.choice(["dict", "list"])) if rng.random() < 0.7 else gen_array(rng)}
             else:
                 k = rng.choice(cands)
-                op.update(k=k, v=gen_container(rng, kind(spec.vis[k])))
+                if kind(spec.vis[k]) == "nd":
+                    # in-place change of a numpy array (same dtype and shape): arr[...] = arr + 1
+                    old = decode(spec.vis[k])
+                    op.update(k=k, v=canon((old + 1).astype(old.dtype)))
+                else:
+                    op.update(k=k, v=gen_container(rng, kind(spec.vis[k])))
         ops.append(op)
         if op["op"] == "popitem":
             # which key popitem takes is only known when the case runs (directory order after a reopen); the shadow
